@@ -1,6 +1,37 @@
 // Package selftest: seeded in-memory variants (packages.Config.Overlay) used to
-// test each rule both ways in the thorough tier.
+// test each rule set both ways in the thorough tier.  /repo is never copied or
+// modified: a variant is an overlay of one or more files whose content was
+// transformed in memory (fragment replacement, or a stored unified diff from
+// /verif/seeded applied hunk by hunk on the current file content).
 package selftest
+
+import (
+	"encoding/json"
+	"fmt"
+	"os"
+	"os/exec"
+	"path/filepath"
+	"sort"
+	"strings"
+	"sync"
+
+	"verif/sa/core"
+	"verif/sa/props"
+)
+
+// Variant is one in-memory transformation of the repository.
+type Variant struct {
+	Name   string
+	Prop   string
+	Breaks bool   // true: some rule of ExpectRule must report a violation; false: everything must stay silent
+	Expect string // rule prefix expected to fire (e.g. "C03.R3"); empty = any rule of the property
+	Edits  []Edit // fragment replacements
+	Patch  string // path of a unified diff (alternative to Edits)
+	Why    string
+}
+
+// Edit replaces the first occurrence of Old by New in File (relative to the repository).
+type Edit struct{ File, Old, New string }
 
 // Result of the thorough-tier self validation.
 type Result struct {
@@ -9,8 +40,222 @@ type Result struct {
 	Lines                  []string
 }
 
-// Run evaluates every variant registered for the property.
-func Run(repo, prop string, seed int) Result { return Result{} }
+type childOut struct {
+	Applied     bool     `json:"applied"`
+	SkipReason  string   `json:"skip_reason,omitempty"`
+	Violated    []string `json:"violated"`
+	Undecided   []string `json:"undecided"`
+	Obligations int      `json:"obligations"`
+	Error       string   `json:"error,omitempty"`
+}
 
-// RunVariantChild is the child-process entry: load with overlay, run rules, print statuses.
-func RunVariantChild(repo, prop, variant string) int { return 0 }
+// All returns every variant of a property: the hand-written table plus the seeded changes stored under /verif/seeded.
+func All(verif, prop string) []Variant {
+	var out []Variant
+	for _, v := range table {
+		if v.Prop == prop {
+			out = append(out, v)
+		}
+	}
+	// seeded changes
+	dirs, _ := filepath.Glob(filepath.Join(verif, "seeded", "*"))
+	sort.Strings(dirs)
+	for _, d := range dirs {
+		b, err := os.ReadFile(filepath.Join(d, "meta.json"))
+		if err != nil {
+			continue
+		}
+		var m struct {
+			Property string `json:"property"`
+			Summary  string `json:"summary"`
+		}
+		if json.Unmarshal(b, &m) != nil || m.Property != prop {
+			continue
+		}
+		out = append(out, Variant{Name: "seeded/" + filepath.Base(d), Prop: prop, Breaks: true, Patch: filepath.Join(d, "patch.diff"), Why: "seeded change confirmed to break the property (sub-agent + independent confirmation)"})
+	}
+	return out
+}
+
+func find(verif, prop, name string) (Variant, bool) {
+	for _, v := range All(verif, prop) {
+		if v.Name == name {
+			return v, true
+		}
+	}
+	return Variant{}, false
+}
+
+// overlayFor builds the overlay of a variant; ok=false when an anchor fragment is gone.
+func overlayFor(repo string, v Variant) (map[string][]byte, string) {
+	ov := map[string][]byte{}
+	get := func(rel string) (string, error) {
+		abs := filepath.Join(repo, rel)
+		if b, ok := ov[abs]; ok {
+			return string(b), nil
+		}
+		b, err := os.ReadFile(abs)
+		return string(b), err
+	}
+	for _, e := range v.Edits {
+		s, err := get(e.File)
+		if err != nil {
+			return nil, "file missing: " + e.File
+		}
+		if !strings.Contains(s, e.Old) {
+			return nil, "fragment not found in " + e.File
+		}
+		ov[filepath.Join(repo, e.File)] = []byte(strings.Replace(s, e.Old, e.New, 1))
+	}
+	if v.Patch != "" {
+		b, err := os.ReadFile(v.Patch)
+		if err != nil {
+			return nil, "patch missing"
+		}
+		files, err := parseUnifiedDiff(string(b))
+		if err != nil {
+			return nil, "patch unreadable: " + err.Error()
+		}
+		for _, fp := range files {
+			s, err := get(fp.File)
+			if err != nil {
+				return nil, "file missing: " + fp.File
+			}
+			ns, ok := applyHunks(s, fp.Hunks)
+			if !ok {
+				return nil, "patch does not apply to the current " + fp.File
+			}
+			ov[filepath.Join(repo, fp.File)] = []byte(ns)
+		}
+	}
+	return ov, ""
+}
+
+// RunVariantChild is the child-process entry: load with overlay, run rules, print statuses as JSON.
+func RunVariantChild(repo, prop, variant string) int {
+	verif := os.Getenv("VERIF_DIR")
+	if verif == "" {
+		verif = "/verif"
+	}
+	out := childOut{}
+	emit := func() int {
+		b, _ := json.Marshal(out)
+		fmt.Println(string(b))
+		return 0
+	}
+	v, ok := find(verif, prop, variant)
+	if !ok {
+		out.Error = "unknown variant"
+		return emit()
+	}
+	ov, skip := overlayFor(repo, v)
+	if skip != "" {
+		out.SkipReason = skip
+		return emit()
+	}
+	out.Applied = true
+	p, err := core.Load(core.LoadOptions{Dir: repo, Overlay: ov})
+	if err != nil {
+		out.Error = "variant does not load/type-check: " + err.Error()
+		return emit()
+	}
+	r := core.NewReport(prop)
+	props.Registry[prop].Run(p, r)
+	out.Obligations = len(r.Obligations)
+	for _, o := range r.Obligations {
+		switch o.Status {
+		case core.Violated:
+			out.Violated = append(out.Violated, o.Rule+" "+o.Construct)
+		case core.Undec:
+			out.Undecided = append(out.Undecided, o.Rule+" "+o.Construct+": "+o.Detail)
+		}
+	}
+	return emit()
+}
+
+// Run evaluates every variant registered for the property (≤ 4 child processes at a time).
+func Run(repo, prop string, seed int) Result {
+	verif := os.Getenv("VERIF_DIR")
+	if verif == "" {
+		verif = "/verif"
+	}
+	vs := All(verif, prop)
+	// the seed only rotates the order in which variants are evaluated
+	if len(vs) > 0 && seed != 0 {
+		k := seed % len(vs)
+		if k < 0 {
+			k = -k
+		}
+		vs = append(vs[k:], vs[:k]...)
+	}
+	res := Result{}
+	var mu sync.Mutex
+	sem := make(chan struct{}, 4)
+	var wg sync.WaitGroup
+	self, _ := os.Executable()
+	for _, v := range vs {
+		v := v
+		wg.Add(1)
+		sem <- struct{}{}
+		go func() {
+			defer wg.Done()
+			defer func() { <-sem }()
+			cmd := exec.Command(self, "-repo", repo, "-variant", v.Name, prop)
+			cmd.Env = append(os.Environ(), "VERIF_DIR="+verif)
+			b, err := cmd.Output()
+			var co childOut
+			line := ""
+			if err != nil {
+				line = fmt.Sprintf("%s: FAILED child process: %v", v.Name, err)
+			} else {
+				// last line of stdout is the JSON
+				ls := strings.Split(strings.TrimSpace(string(b)), "\n")
+				if jerr := json.Unmarshal([]byte(ls[len(ls)-1]), &co); jerr != nil {
+					line = fmt.Sprintf("%s: FAILED unreadable child output", v.Name)
+				}
+			}
+			mu.Lock()
+			defer mu.Unlock()
+			if line != "" {
+				res.Failed = append(res.Failed, v.Name)
+				res.Lines = append(res.Lines, line)
+				return
+			}
+			switch {
+			case co.SkipReason != "":
+				res.Skipped++
+				res.Lines = append(res.Lines, fmt.Sprintf("%s: skipped (%s)", v.Name, co.SkipReason))
+			case co.Error != "":
+				res.Skipped++
+				res.Lines = append(res.Lines, fmt.Sprintf("%s: skipped (%s)", v.Name, co.Error))
+			case v.Breaks:
+				hit := ""
+				for _, x := range co.Violated {
+					if v.Expect == "" || strings.HasPrefix(x, v.Expect) {
+						hit = x
+						break
+					}
+				}
+				if hit != "" {
+					res.Fired++
+					res.Lines = append(res.Lines, fmt.Sprintf("%s: fired as required (%s; %d violations)", v.Name, hit, len(co.Violated)))
+				} else {
+					res.Failed = append(res.Failed, v.Name)
+					res.Lines = append(res.Lines, fmt.Sprintf("%s: FAILED — breaking variant not reported (expected %q; violated=%v undecided=%v)", v.Name, v.Expect, co.Violated, co.Undecided))
+				}
+			default:
+				if len(co.Violated) == 0 && len(co.Undecided) == 0 {
+					res.Silent++
+					res.Lines = append(res.Lines, fmt.Sprintf("%s: silent as required (%d obligations)", v.Name, co.Obligations))
+				} else {
+					res.Failed = append(res.Failed, v.Name)
+					res.Lines = append(res.Lines, fmt.Sprintf("%s: FAILED — behaviour-preserving variant raised an alarm (violated=%v undecided=%v)", v.Name, co.Violated, co.Undecided))
+				}
+			}
+		}()
+	}
+	wg.Wait()
+	sort.Strings(res.Lines)
+	sort.Strings(res.Failed)
+	return res
+}
